@@ -128,6 +128,8 @@ def strat_policy(rng, k, **kw):
     if klass == 7 and "mki" not in kw:
         kw["mki"] = True
     p = rand_policy(rng, **kw)
+    if klass == 7 and p.use_mki and (k // 10) % 2 == 0:
+        p.keys = p.keys[:1]            # an MKI with exactly one master key: the MKI octets still select (and must match) it
     aead = p.rtp[0] in (GCM128, GCM256)
     ext_p = 0.5
     if klass == 1:
@@ -253,7 +255,7 @@ def rand_rtcp(rng, ssrc):
     return rtcp_packet(ssrc, rand_key(rng, n), pt=rng.choice([200, 201, 202]))
 
 
-def replay_history(rng, tier, rtcp=False, n_ssrc=None, steps=None, common_roc=None, damaged=0.0, rekey=0.0):
+def replay_history(rng, tier, rtcp=False, n_ssrc=None, steps=None, common_roc=None, damaged=0.0, rekey=0.0, wrap_prologue=False):
     """sender session 1 / receiver session 2; adversarial delivery order.  Annotations:
        # S <ssrc> <idx>            after a protect (true index of the packet just made)
        # D <ssrc> <idx> <line>     after an unprotect delivering the packet made at <line>
@@ -287,11 +289,23 @@ def replay_history(rng, tier, rtcp=False, n_ssrc=None, steps=None, common_roc=No
     pool = {s: [] for s in ssrcs}           # (line, idx)
     start = {s: rng.choice([0, 1, 100, 32767, 32768, 65000, 65535]) for s in ssrcs}
     steps = steps or (80 if tier == "quick" else 600)
+    if rekey and common_roc is not None and rng.random() < 0.5:
+        start = {s: rng.choice([40000, 65000, 65535]) for s in ssrcs}      # first packet in the far half of the sequence space
+    if wrap_prologue and not rtcp and not wildcard:
+        # the sender crosses the sequence wrap and is then handed the skipped number from before it: 65533, 65535, 0, 65534
+        s0 = ssrcs[0]; base0 = (common_roc or 0) << 16
+        for idx in (base0 + 65533, base0 + 65535, base0 + 65536, base0 + 65534):
+            pkt = rtp_packet(s0, idx & 0xffff, payload=idx.to_bytes(6, "big"))
+            L.append(pkt_op("protect", 1, pkt, extra=40))
+            pool[s0].append((len(L), idx)); L.append(f"# S {s0:x} {idx:x}")
+        hi[s0] = base0 + 65536
+    early_rekey = bool(rekey) and common_roc is not None
     delivered = set()
     delivered_ssrcs = set()
     for step_no in range(steps):
         s = rng.choice(ssrcs)
-        if rekey and not wildcard and rng.random() < rekey and all(pool[x] for x in ssrcs):
+        if rekey and not wildcard and (rng.random() < rekey or (early_rekey and not delivered)) and all(pool[x] for x in ssrcs):
+            early_rekey = False        # (with an imposed ROC: one re-key BEFORE the receiver has seen anything, the ROC still pending there)
             L += [f"update 1 {ids}", f"update 2 {ids}", "# U"]
             for x in ssrcs:
                 pool[x] = [e for e in pool[x] if e[0] not in delivered]
